@@ -37,10 +37,9 @@ CLAIMED = {
             "No fabrication: every io Read* that returns normally consumed bytes that were present (postcondition of ReadBytes and of every reader built on it, byte-level contracts); "
             "strict-prefix harnesses: after decoding a strict prefix of a valid encoding the statement following the read is unreachable (the read panics) for int, long, decimal, blob, text, "
             "int-length bytes and a field sequence; allocation budget obligations at every make fed by decoded data in io (ReadBytes, typed arrays, decimal arrays): bytes allocated <= a "
-            "stated function of the input size in the ENTRY state, so also on paths that panic later; ReadIntBytesLimit never returns more than its limit; loops have variants.",
+            "stated function of the input size in the ENTRY state, so also on paths that panic later; the same budget obligations for the count-prefixed decoders above io (ListValue.Read, TextPack.Read, the server-monitoring pack readers) as second, byte-level units of the same functions; ReadIntBytesLimit never returns more than its limit; loops have variants.",
             "DESIGN.md §4 C04",
-            BASE_NOTE + " Decoders above io (values, packs, steps, records) inherit no-fabrication because every token read bottoms out in ReadBytes; their own pre-allocations from decoded counts "
-            "(ListValue.Read, TextPack.Read, ...) are not under an allocation-budget contract yet. tcp-backed inputs are outside the contracts.",
+            BASE_NOTE + " Decoders above io (values, packs, steps, records) inherit no-fabrication because every token read bottoms out in ReadBytes; the allocation budget is per make site (not cumulative) and element decoders called from a list's loop are abstracted in the list's unit (they are their own units); counts carried in 8 or 16 bits (CompositePack, record lists, text arrays) are bounded by the field width and not checked against the input. tcp-backed inputs are outside the contracts.",
             TECH),
     "C07": ("proof",
             "For each UDP pack type a proof harness derived from the AST of Write and frozen: decode(encode(p)) at the same (symbolic) version consumes the "
